@@ -148,10 +148,26 @@ func cmdPerms(args []string) int {
 	// the directed configuration of F2 first: a bare alternation must not grant a longer name
 	directed := &permConfig{Clients: []string{"client1"}, Entries: map[string][]permEntry{"client1": {
 		{W: &Pat{Top: []*rnode{litSeq("Wallet1"), litSeq("Wallet2")}}, A: &Pat{Empty: true}, Ops: []string{"All"}}}}}
+	anchored := func(s string, bol, eol bool) *rnode {
+		n := litSeq(s)
+		if bol {
+			n.kids = append([]*rnode{{kind: "bol"}}, n.kids...)
+		}
+		if eol {
+			n.kids = append(n.kids, &rnode{kind: "eol"})
+		}
+		return n
+	}
+	// ... and the same alternation written with its own anchors: ^Wallet1|Wallet2$
+	directed2 := &permConfig{Clients: []string{"client1"}, Entries: map[string][]permEntry{"client1": {
+		{W: &Pat{Top: []*rnode{anchored("Wallet1", true, false), anchored("Wallet2", false, true)}}, A: &Pat{Empty: true}, Ops: []string{"All"}}}}}
 	for ci := 0; ci < nCfg; ci++ {
 		pc := genPermConfig(rng, wg, ag)
 		if ci == 0 {
 			pc = directed
+		}
+		if ci == 1 {
+			pc = directed2
 		}
 		svc, err := staticchecker.New(ctx, staticchecker.WithPermissions(pc.toDirk()))
 		if err != nil {
@@ -186,8 +202,8 @@ func cmdPerms(args []string) int {
 			case 3:
 				path = w + "/"
 			}
-			if ci == 0 && k < 4 {
-				path = []string{"Wallet10/x", "xWallet2/x", "Wallet1/x", "wallet2/x"}[k]
+			if ci <= 1 && k < 6 {
+				path = []string{"Wallet10/x", "xWallet2/x", "Wallet1/x", "wallet2/x", "Wallet1-cold/x", "OtherWallet2/x"}[k]
 				client = "client1"
 			}
 			op := allOps[rng.Intn(len(allOps))]
@@ -202,7 +218,7 @@ func cmdPerms(args []string) int {
 				stats["check.false"]++
 			}
 			// the property itself on the simplest shape: one entry of literal alternatives with "All"
-			if ci == 0 && got && !strings.EqualFold(strings.SplitN(path, "/", 2)[0], "Wallet1") && !strings.EqualFold(strings.SplitN(path, "/", 2)[0], "Wallet2") {
+			if ci <= 1 && got && !strings.EqualFold(strings.SplitN(path, "/", 2)[0], "Wallet1") && !strings.EqualFold(strings.SplitN(path, "/", 2)[0], "Wallet2") {
 				monFail = append(monFail, fmt.Sprintf("permission path \"Wallet1|Wallet2\" with All grants %q to client1 although the wallet name is neither Wallet1 nor Wallet2", path))
 			}
 		}
